@@ -242,7 +242,7 @@ HeapDelta == IF "heap_delta" \in DOMAIN E THEN E.heap_delta ELSE 0
 
 End == /\ Is("end")
        /\ Flag((IF E.outcome = "Done" /\ led.live # {} THEN {"C05"} ELSE {}) \cup
-               (IF E.outcome = "Done" /\ (E.live # 0 \/ HeapDelta > 256) THEN {"C17"} ELSE {}))
+               (IF E.outcome = "Done" /\ (E.live # 0 \/ HeapDelta > 100) THEN {"C17"} ELSE {}))
        /\ UNCHANGED <<q, pend, led>>
        /\ l' = l + 1
 
